@@ -24,7 +24,17 @@ def _isnan(v):
 
 def column_stats(values):
   """Stats of one column, NaNs skipped. All-NaN/empty: count 0, mean/var NaN, total 0."""
-  xs = [cm.frac(v) for v in values if not _isnan(v)]
+  vals = [v for v in values if not _isnan(v)]
+  if any(isinstance(v, float) and math.isinf(v) for v in vals):
+    # Extended reals: +inf / -inf are values (they are counted). The sum is +inf
+    # (-inf) when only that sign occurs and undefined (NaN) when both occur; the
+    # mean follows the sum; a deviation from an infinite / undefined mean is
+    # undefined, so variance and stddev are NaN.
+    pos = any(v == math.inf for v in vals)
+    neg = any(v == -math.inf for v in vals)
+    tot = NAN if (pos and neg) else (math.inf if pos else -math.inf)
+    return {'count': len(vals), 'mean': tot, 'var': NAN, 'stddev': NAN, 'total': tot}
+  xs = [cm.frac(v) for v in vals]
   n = len(xs)
   if n == 0:
     return {'count': 0, 'mean': NAN, 'var': NAN, 'stddev': NAN,
